@@ -230,6 +230,7 @@ def run():
             keylog.extend(keylog_reader.get_keys_from_string(buf.decode('ascii')))  # adds secrets from decryption secret block to keylog
             continue
 
+        ts = float(ts)  # dpkt reads nanosecond-resolution legacy pcap files with Decimal timestamps
         packet = Packet(buf, ts)
 
         if packet.tcp_packet:
